@@ -136,7 +136,7 @@ PV = "edgegraph/output/pyvis.py"
 MUTANTS += [
     # ---------------- C15 -------------------------------------------------
     dict(id="c15_revert_fix_d15", props=["C15"], edits=[
-        (PV, "            if vert is edge.v2 and vert is not edge.v1:\n", "            if vert is edge.v2:\n")]),
+        (PV, "                if vert is edge.v2 and vert is not edge.v1:\n", "                if vert is edge.v2:\n")]),
     dict(id="c15_swap_ij", props=["C15"], edits=[
         (PV, "                    net.add_edge(i, j, title=refunc(edge))\n", "                    net.add_edge(j, i, title=refunc(edge))\n")]),
     dict(id="c15_directed_frozen", props=["C15"], edits=[
@@ -146,8 +146,8 @@ MUTANTS += [
         (PV, "            net.directed = issubclass(type(edge), DirectedEdge)\n",
              "            net.directed = type(edge) is DirectedEdge\n")]),
     dict(id="c15_draw_at_both_ends", props=["C15"], edits=[
-        (PV, "            if vert is edge.v2 and vert is not edge.v1:\n                continue\n",
-             "            if vert is edge.v2 and vert is not edge.v1 and not issubclass(type(edge), DirectedEdge):\n                continue\n")]),
+        (PV, "                if vert is edge.v2 and vert is not edge.v1:\n                    continue\n",
+             "                if vert is edge.v2 and vert is not edge.v1 and not issubclass(type(edge), DirectedEdge):\n                    continue\n")]),
     dict(id="c15_label_is_index_not_rvfunc_for_later_nodes", props=["C15"], edits=[
         (PV, "            net.add_node(i, label=rvfunc(vert))\n", "            net.add_node(i, label=rvfunc(vert) if i < 5 else str(i))\n")]),
 ]
